@@ -5,7 +5,8 @@ C37 — Compact descriptor builder agrees with protodesc (evidence level: transl
 The main tie is the differential accessor snapshot of the harness (all linked files exhaustively + random schemas).
 Proved here, on `Model.DescFeatures`, is the part of the two constructions that is LOGIC and differs textually
 between `internal/filedesc` (wire-order byte parsing) and `reflect/protodesc` (message accessors): how each node's
-`EditionFeatures` are derived.  Three disagreements are refuted with witnesses (findings).
+`EditionFeatures` are derived.  One remaining disagreement (legacy `packed` option together with `features.repeated_field_encoding`, a spelling
+protoc refuses) is refuted with a witness.
 -/
 namespace C37
 open Desc Gen.EditionDefaults
@@ -44,23 +45,27 @@ theorem builder_field_features_false :
   intro h
   exact absurd (h {} { repeatedFieldEncoding := some evPacked } (some false)) (by decide)
 
-/-- enums: equal exactly when the enum carries no feature override of its own … -/
-theorem builder_enum_features_partial (parent : GoFeatures) (ov : Overrides)
-    (h : ov.enumType = none ∧ ov.jsonFormat = none ∧ ov.goLegacyUnmarshalJsonEnum = none ∧ ov.goStripEnumPrefix = none ∧
-         ov.fieldPresence = none ∧ ov.repeatedFieldEncoding = none ∧ ov.utf8Validation = none ∧ ov.messageEncoding = none ∧
-         ov.goApiLevel = none) :
-    filedescEnumFeatures parent ov = protodescEnumFeatures parent ov :=
-  C38.filedesc_enum_features_partial parent ov h
+/-- enums: both constructions merge the enum's own `features` into the parent's (filedesc since e5f41ee), for ALL
+parents and overrides; in particular `IsClosed()` agrees. -/
+theorem builder_enum_features (parent : GoFeatures) (ov : Overrides) :
+    filedescEnumFeatures parent ov = protodescEnumFeatures parent ov ∧
+    isClosed (filedescEnumFeatures parent ov) = isClosed (protodescEnumFeatures parent ov) := ⟨rfl, rfl⟩
 
-/- … FULL STATEMENT (false): `∀ parent ov, IsClosed` agrees. `(*Enum).unmarshalSeed` never reads `EnumOptions`. -/
-theorem builder_enum_features_false :
-    ¬ ∀ parent ov, isClosed (filedescEnumFeatures parent ov) = isClosed (protodescEnumFeatures parent ov) :=
-  C38.filedesc_enum_features_false
+/-- `IsLazy()` of an extension agrees (protodesc records the option since 5c0ecc9). -/
+theorem builder_ext_lazy (lazyOpt : Bool) : filedescExtIsLazy lazyOpt = protodescExtIsLazy lazyOpt := rfl
 
-/- FULL STATEMENT (false): `IsLazy()` of an extension agrees. -/
-theorem builder_ext_lazy_false : ¬ ∀ lazyOpt, filedescExtIsLazy lazyOpt = protodescExtIsLazy lazyOpt := by
+/-- `EnforceUTF8()` exists on both descriptor kinds and is the resolved feature (since c1ca555); both constructions
+produce `*filedesc.Field` / `*filedesc.Extension`, so the accessor agrees as soon as the features do. -/
+theorem builder_descriptor_utf8 (f : GoFeatures) : descriptorEnforceUTF8 f = enforceUTF8 f := rfl
+
+/- Historical regression examples (code before e5f41ee / 5c0ecc9); NOT statements about the current code. -/
+namespace Old
+def protodescExtIsLazy (_lazyOpt : Bool) : Bool := false
+theorem old_builder_ext_lazy_false : ¬ ∀ lazyOpt, filedescExtIsLazy lazyOpt = Old.protodescExtIsLazy lazyOpt := by
   intro h; exact absurd (h true) (by decide)
-
-theorem builder_ext_lazy_partial : filedescExtIsLazy false = protodescExtIsLazy false := rfl
+theorem old_builder_enum_features_false :
+    ¬ ∀ parent ov, isClosed (C38.Old.filedescEnumFeatures parent ov) = isClosed (protodescEnumFeatures parent ov) :=
+  C38.Old.old_filedesc_enum_features_false
+end Old
 
 end C37
